@@ -37,7 +37,8 @@ def evaluate(a):
     try:
         spec = [E(b"f%d" % i, "file", content=shape_bytes(sh)) for i, sh in enumerate(files)]
         packcheck.TOOLS["gensquashfs"] = VARIANTS[k]
-        r, img, argv = packcheck.pack(spec, cfg, wd)
+        sf = ("0 [glob_no_path,%s] *\n" % cfg["sort"]).encode() if cfg.get("sort") else None
+        r, img, argv = packcheck.pack(spec, {k_: v_ for k_, v_ in cfg.items() if k_ != "sort"}, wd, sortfile=sf)
         label = "%d-bit checksum, files %s, cfg %s" % (k, ["+".join(s) for s in files], json.dumps(cfg, sort_keys=True))
 
         def viol(fp, what):
@@ -101,8 +102,11 @@ def main():
             return 1
         jobs = []
         cfgs = [dict(comp="gzip", bs=B, j=1, Q=1), dict(comp="gzip", bs=B, j=4, Q=1000)]
+        # per-file packing flags from a sort file change the block flags the writer sees (uncompressed blocks all have equal stored size)
+        cfgs += [dict(comp="gzip", bs=B, j=1, Q=1, sort="dont_compress"), dict(comp="gzip", bs=B, j=2, Q=3, sort="dont_fragment")]
         if not cr.quick:
-            cfgs += [dict(comp="lz4", bs=B, j=2, Q=3), dict(comp="zstd", bs=B, j=1, Q=1), dict(comp="xz", bs=B, j=3, Q=1000)]
+            cfgs += [dict(comp="lz4", bs=B, j=2, Q=3), dict(comp="zstd", bs=B, j=1, Q=1), dict(comp="xz", bs=B, j=3, Q=1000),
+                     dict(comp="gzip", bs=B, j=1, Q=1, sort="nosparse"), dict(comp="zstd", bs=B, j=4, Q=1000, sort="dont_compress,dont_fragment")]
         S2 = shapes(["r1", "r2", "A", "Bb"], ["t1", "t2"], 2)      # 62 shapes
         S1 = shapes(["r1", "r2", "A"], ["t1", "t2", "tp"], 1)      # 15 shapes
         fams = []
@@ -121,7 +125,9 @@ def main():
             for files in fl:
                 for k in bits:
                     for ci, cfg in enumerate(cfgs):
-                        if fname in ("triples", "quads") and ci > 1 and k != 0:
+                        if fname in ("triples", "quads") and ci > 1 and (k != 0 or cfg.get("sort")):
+                            continue
+                        if cfg.get("sort") and k != 0:
                             continue
                         jobs.append((k, tuple(files), cfg))
         cr.coverage["planned_cases"] = len(jobs)
@@ -155,7 +161,7 @@ def main():
                     if left < 15:
                         cr.cap("deadline before schedule scenario %s" % sc)
                         break
-                    j, r = sched.explore(bexe, [wk, 3, sc], bound=-1 if wk == 2 else 2, deadline=max(10, left - 10))
+                    j, r = sched.explore(bexe, [wk, 3, sc], bound=-1 if wk == 2 else 2, deadline=max(10, left - 10), unlock_points=True)
                     if j is None:
                         raise RuntimeError("bp explorer failed: %s" % r.err[-300:])
                     bp.append(dict(workers=wk, scenario=sc, executions=j["executions"], states=j["states"], capped=j["capped"]))
